@@ -347,6 +347,14 @@ def run(chk, repo):
     fmod = repo.mod("lazy_filters")
     hubs = [n for n in own_nodes(pc) if isinstance(n, ast.Call) and base_name(canon(fmod, n.func)) == "thub"]
     good = len(hubs) == 1 and [unparse(a) for a in hubs[0].args] == ["args[0]", "len(self)"]
+    if good:
+        # one hub for all branches: the call is evaluated once, not once per branch (inside the comprehension / loop
+        # over the filters every branch would get a hub - and a source iterator - of its own)
+        p_ = getattr(hubs[0], "_parent", None)
+        while p_ is not None and p_ is not pc:
+            if isinstance(p_, (ast.GeneratorExp, ast.ListComp, ast.SetComp, ast.DictComp, ast.For, ast.While, ast.Lambda)):
+                good = False
+            p_ = getattr(p_, "_parent", None)
     chk.decide(good, "R2.1", "%s:ParallelFilter.__call__" % fmod.relpath,
                "source shared through " + (short(hubs[0]) if hubs else "<no thub>"),
                why="branches must share one read of the source: exactly len(self) tee copies", node=pc)
@@ -420,6 +428,10 @@ def run(chk, repo):
                "memory read through bounded views only" if not sites25 else "whole-memory consumer: %s" % sites25[0][1],
                why="an endless (or merely long) memory iterable is read to its end before the first output: the call "
                    "never returns / reads far more than the lm items it needs", node=sites25[0][0] if sites25 else lc)
+    # designs built from Stream-valued parameters: each parameter is read once per output sample only if every
+    # possibly-Stream value is used within its hub budget (the same obligations as C13's R4.1 / R4.2)
+    from .c13 import design_hub_budgets
+    design_hub_budgets(chk, repo)
     chk.facts["stage_table"] = table
 
 
